@@ -1142,7 +1142,11 @@ func (s *syncer) compareAtSyncPoint(where string) *outcome {
 		return out
 	}
 	if n, d := obsDiff(s.src.h.P.Obs[s.p], o); n != "" {
-		return &outcome{"sync:state-differs-at-sync-point:" + where + ":" + n, d}
+		tag := ""
+		if strings.HasPrefix(where, "crash:") {
+			tag = where + ":"
+		}
+		return &outcome{"sync:state-differs-at-sync-point:" + tag + n, where + ": " + d}
 	}
 	s.compared++
 	// the blocks the node stored are the source's, byte for byte
